@@ -106,6 +106,8 @@ def tiny_base_points(recs):
             seen.add((r['fn'], tuple(map(tuple, r['e'])), r['sh']))
             for den in (2 ** 27, 2 ** 40):
                 out.append(dict(r, x0=[1, den], rel=True))
+            if r['fn'] in ('ipow3', 'pow1.5', 'sqrt', 'recip', 'ipow-1', 'pow-0.5'):
+                out.append(dict(r, x0=[1, 2 ** 60], rel=True))      # |x| < 1e-15: the branch of __pow__ for a vanishing complex modulus
     return out
 
 
